@@ -495,3 +495,173 @@ theorem tvIso_eq_l21 (circular : Bool) (shape axes : List Nat) (comps : List (Li
 end tviso
 
 end Scico.FuncEval
+
+namespace Scico.FuncEval
+
+/-! ### `L21Norm(l2_axis=axes)` for an arbitrary axis subset: which entries the model groups -/
+section l21groups
+
+/-- group key of flat position `i` -/
+def l21Key (shape axes : List Nat) (i : Nat) : Nat := ravel shape (dropAxes axes (unravel shape i))
+
+theorem unravel_add_mul (s : List Nat) (i k : Nat) : unravel s (i + k * size s) = unravel s i := by
+  induction s generalizing k with
+  | nil => simp [unravel]
+  | cons n t ih =>
+    rw [unravel_cons, unravel_cons, size_cons]
+    have e : i + k * (n * size t) = i + (k * n) * size t := by ring
+    rw [e, ih (k * n)]
+    rcases Nat.eq_zero_or_pos (size t) with h0 | hS
+    · simp [h0]
+    · rw [Nat.add_mul_div_right _ _ hS, Nat.add_mul_mod_self_right]
+
+theorem unravel_inRange : ∀ (s : List Nat) (i : Nat), (∀ d ∈ s, 0 < d) → List.Forall₂ (· < ·) (unravel s i) s
+  | [], i, _ => by simp [unravel]
+  | n :: t, i, h => by
+    rw [unravel_cons]
+    exact List.Forall₂.cons (Nat.mod_lt _ (h n (by simp))) (unravel_inRange t i (fun d hd => h d (by simp [hd])))
+
+theorem ravel_lt : ∀ (s mi : List Nat), List.Forall₂ (· < ·) mi s → ravel s mi < size s ∨ s = []
+  | [], _, _ => Or.inr rfl
+  | n :: t, [], h => by cases h
+  | n :: t, m :: ms, h => by
+    left
+    cases h with
+    | cons hm hrest =>
+      rw [ravel_cons _ _ _ _ hrest.length_eq, size_cons]
+      rcases ravel_lt t ms hrest with h1 | h1
+      · calc m * size t + ravel t ms < m * size t + size t := by omega
+          _ = (m + 1) * size t := by ring
+          _ ≤ n * size t := Nat.mul_le_mul_right _ hm
+      · subst h1
+        cases hrest
+        simp [ravel, size]
+        omega
+
+theorem ravel_lt' (s mi : List Nat) (h : List.Forall₂ (· < ·) mi s) : ravel s mi < size s := by
+  rcases ravel_lt s mi h with h1 | h1
+  · exact h1
+  · subst h1; cases h; simp [ravel, size]
+
+theorem unravel_ravel : ∀ (s mi : List Nat), List.Forall₂ (· < ·) mi s → unravel s (ravel s mi) = mi
+  | [], _, h => by cases h; simp [unravel]
+  | n :: t, [], h => by cases h
+  | n :: t, m :: ms, h => by
+    cases h with
+    | cons hm hrest =>
+      have hr := ravel_lt' t ms hrest
+      rw [ravel_cons _ _ _ _ hrest.length_eq, unravel_cons]
+      have hS : 0 < size t := by omega
+      have e1 : (m * size t + ravel t ms) / size t = m := by
+        rw [Nat.mul_comm, Nat.mul_add_div hS, Nat.div_eq_of_lt hr]; simp
+      have e2 : unravel t (m * size t + ravel t ms) = unravel t (ravel t ms) := by
+        rw [Nat.add_comm]; exact unravel_add_mul t _ m
+      rw [e1, Nat.mod_eq_of_lt hm, e2, unravel_ravel t ms hrest]
+
+theorem dropAxes_zipIdx_inRange (axes : List Nat) : ∀ (mi s : List Nat) (k : Nat), List.Forall₂ (· < ·) mi s →
+    List.Forall₂ (· < ·) ((mi.zipIdx k).map (fun p => if axes.contains p.2 then 0 else p.1)) s
+  | [], [], _, _ => by simp
+  | m :: ms, n :: t, k, h => by
+    cases h with
+    | cons hm hrest =>
+      simp only [List.zipIdx_cons, List.map_cons]
+      refine List.Forall₂.cons ?_ (dropAxes_zipIdx_inRange axes ms t (k + 1) hrest)
+      split
+      · omega
+      · exact hm
+  | [], _ :: _, _, h => by cases h
+  | _ :: _, [], _, h => by cases h
+
+theorem dropAxes_inRange (axes mi s : List Nat) (h : List.Forall₂ (· < ·) mi s) :
+    List.Forall₂ (· < ·) (dropAxes axes mi) s := dropAxes_zipIdx_inRange axes mi s 0 h
+
+theorem dropAxes_zipIdx_getD (axes : List Nat) : ∀ (mi : List Nat) (k p : Nat),
+    ((mi.zipIdx k).map (fun q => if axes.contains q.2 then 0 else q.1)).getD p 0
+      = if axes.contains (k + p) then 0 else mi.getD p 0
+  | [], k, p => by simp
+  | m :: ms, k, 0 => by simp
+  | m :: ms, k, p + 1 => by
+    simp only [List.zipIdx_cons, List.map_cons, List.getD_cons_succ]
+    rw [dropAxes_zipIdx_getD axes ms (k + 1) p]
+    have : k + 1 + p = k + (p + 1) := by omega
+    rw [this]
+
+theorem dropAxes_getD (axes mi : List Nat) (p : Nat) :
+    (dropAxes axes mi).getD p 0 = if axes.contains p then 0 else mi.getD p 0 := by
+  have := dropAxes_zipIdx_getD axes mi 0 p
+  simpa [dropAxes] using this
+
+theorem dropAxes_length (axes mi : List Nat) : (dropAxes axes mi).length = mi.length := by
+  simp [dropAxes]
+
+/-- **index-level grouping for every axis subset**: on a shape with positive dimensions two flat positions
+    get the same key iff their multi-indices agree on every axis that is *not* reduced -/
+theorem l21Key_eq_iff (shape axes : List Nat) (hpos : ∀ d ∈ shape, 0 < d) (i j : Nat) :
+    l21Key shape axes i = l21Key shape axes j ↔
+      ∀ p, axes.contains p = false → (unravel shape i).getD p 0 = (unravel shape j).getD p 0 := by
+  have hi := dropAxes_inRange axes _ _ (unravel_inRange shape i hpos)
+  have hj := dropAxes_inRange axes _ _ (unravel_inRange shape j hpos)
+  constructor
+  · intro h p hp
+    have h' : dropAxes axes (unravel shape i) = dropAxes axes (unravel shape j) := by
+      have := congrArg (unravel shape) h
+      simp only [l21Key] at this
+      rwa [unravel_ravel _ _ hi, unravel_ravel _ _ hj] at this
+    have := congrArg (fun l => l.getD p 0) h'
+    simp only [dropAxes_getD, hp] at this
+    simpa using this
+  · intro h
+    simp only [l21Key]
+    congr 1
+    apply List.ext_getElem
+    · simp [dropAxes_length, unravel_length]
+    · intro p h1 h2
+      have e1 := dropAxes_getD axes (unravel shape i) p
+      have e2 := dropAxes_getD axes (unravel shape j) p
+      rw [List.getD_eq_getElem?_getD, List.getElem?_eq_getElem h1] at e1
+      rw [List.getD_eq_getElem?_getD, List.getElem?_eq_getElem h2] at e2
+      simp only [Option.getD_some] at e1 e2
+      rw [e1, e2]
+      by_cases hp : axes.contains p = true
+      · rw [if_pos hp, if_pos hp]
+      · rw [if_neg hp, if_neg hp]
+        exact h p (by simpa using hp)
+
+/-- every group has exactly one representative inside the array: the key is a position of the array,
+    it is its own key, and it lies in the group -/
+theorem l21Key_rep (shape axes : List Nat) (hpos : ∀ d ∈ shape, 0 < d) (i : Nat) :
+    l21Key shape axes i < size shape ∧ l21Key shape axes (l21Key shape axes i) = l21Key shape axes i := by
+  have hi := dropAxes_inRange axes _ _ (unravel_inRange shape i hpos)
+  refine ⟨ravel_lt' _ _ hi, ?_⟩
+  simp only [l21Key]
+  rw [unravel_ravel _ _ hi]
+  congr 1
+  apply List.ext_getElem
+  · simp [dropAxes_length]
+  · intro p h1 h2
+    have e1 := dropAxes_getD axes (dropAxes axes (unravel shape i)) p
+    have e2 := dropAxes_getD axes (unravel shape i) p
+    rw [List.getD_eq_getElem?_getD, List.getElem?_eq_getElem h1] at e1
+    rw [List.getD_eq_getElem?_getD, List.getElem?_eq_getElem h2] at e2
+    simp only [Option.getD_some] at e1 e2
+    rw [e1, e2]
+    by_cases hp : axes.contains p = true
+    · rw [if_pos hp, if_pos hp]
+    · rw [if_neg hp, if_neg hp, dropAxes_getD, if_neg hp]
+
+/-- the model's value, written with the key: one `sqrt` per representative, over the entries of its group -/
+theorem l21AxesOfSq_eq (shape axes : List Nat) (sq : List ℝ) :
+    l21AxesOfSq shape axes sq =
+      (((List.range (size shape)).filter (fun i => l21Key shape axes i == i)).map (fun r =>
+        |Real.sqrt ((((List.range (size shape)).filter (fun i => l21Key shape axes i == r)).map
+          (fun i => sq.getD i 0)).sum)|)).sum := by
+  unfold l21AxesOfSq l21Key
+  simp only [HasSqrt.sqrt]
+  congr 1
+  apply List.map_congr_left
+  intro r _
+  exact absR_eq_abs _
+
+end l21groups
+
+end Scico.FuncEval
